@@ -42,7 +42,8 @@ class C19(Suite):
         yield {"op": "merge", "ranges": [], "reach": 1, "limit": None}
         # random, in real banks, across boundaries
         nrand = 3000 if tier == "quick" else 60000
-        anchors = [0, 1, 9990, 10000, 19995, 20000, 30001, 39990, 40001, 99990, 100001, 165500, 165536, 400001]
+        anchors = [0, 1, 990, 9990, 10000, 19995, 20000, 30001, 39990, 40001, 40990, 59990, 99990, 100001, 164990, 165500, 165536,
+                   300990, 400001, 464990]      # bank boundaries, and multiples of 1000 / 5000 that are NOT bank boundaries
         for _ in range(nrand):
             n = rng.randint(1, 8)
             rs = []
